@@ -51,7 +51,8 @@ fn inject(src: &mut Sources, rng: &mut Rng) -> &'static str {
         1 => ("lexical", "let zzlex = 123456789012345678901234567890;\n".into()),
         2 => ("syntax", "let let zzsyn = ;\n".into()),
         3 => ("syntax", "res / on get -> { 'a num ;\n".into()),
-        4 => ("import-missing", "use \"zz-nope.oal\";\n".into()),
+        // a file that does not exist, or something that exists and is not a file: the directory of the module
+        4 => ("import-missing", if rng.chance(1, 2) { "use \"zz-nope.oal\";\n".into() } else { "use \".\";\n".into() }),
         5 => ("resolution", "let zzres = zz_undefined;\n".into()),
         6 => ("resolution", format!("let zzdup = {{}};\nlet zzdup = num;\n")),
         7 => ("type", "let zztype = {} | num;\n".into()),
